@@ -230,7 +230,8 @@ def case_history(B, cfg):
 
 
 # ------------------------------------------------- reduced (fixed parameters)
-ROPS = ['F0', 'F1', 'G0', 'R0', 'R1', 'SW', 'RA', 'S+', 'S-', 'C', 'Co']
+ROPS = ['F0', 'F1', 'G0', 'R0', 'R1', 'SW', 'RA', 'S+', 'S-', 'C', 'Co',
+        'RN']
 
 
 def _dosed(B):
@@ -268,6 +269,13 @@ def apply_rop(B, r, op, st, names):
         st['sens'] = False
     elif op == 'C':
         r = r.copy()
+    elif op == 'RN':
+        # rename a free parameter through the reduced model: later calls use
+        # the name that is published from then on
+        if 1 not in fixed and not st.get('renamed'):
+            r.set_parameter_names({names[1]: 'renamed'})
+            names[1] = 'renamed'
+            st['renamed'] = True
     return r
 
 
@@ -306,6 +314,7 @@ def case_reduced(B, cfg):
     ops = cfg['ops']
     r = chi.ReducedMechanisticModel(_dosed(B))
     names = r.parameters()
+    orig_names = list(names)
     st = {}
     keep = []
     for op in ops:
@@ -321,11 +330,14 @@ def case_reduced(B, cfg):
             return
     got = observe_reduced(B, r, 'after history', names)
     ref = chi.ReducedMechanisticModel(_dosed(B))
-    net = {names[i]: v for i, v in st.get('fixed', {}).items()}
+    # (the reference fixes and selects first and renames last)
+    net = {orig_names[i]: v for i, v in st.get('fixed', {}).items()}
     if net:
         ref.fix_parameters(net)
     if st.get('sens'):
         ref.enable_sensitivities(True)
+    if st.get('renamed'):
+        ref.set_parameter_names({orig_names[1]: 'renamed'})
     want = observe_reduced(B, ref, 'fresh reduced model with net config',
                            names)
     B.fact('history = net configuration: free names in original order',
